@@ -107,6 +107,7 @@ def parseOffset (e : Env) (p : PS) : Option (Option Int × PS) :=
           match parseDigits e p2 2 with
           | none => none
           | some (mm, p3) =>
+            if mm > 59 then none else
             let off := hh * 60 + mm
             some (some (if ctrl = '-' then off * (-1) else off * 1), p3)
     else none
